@@ -12,6 +12,8 @@ RecE(r, e, i) ==
   CASE e.pat = "same" -> e.B
     [] e.pat = "pm" -> IF i % 2 = 0 THEN e.B ELSE SubMod(Zero, e.B, r)
     [] e.pat = "inf" -> IF i % 3 = 0 THEN Zero ELSE Lin(r, e.A, e.B, i)
+    \* K = A buckets, each hit three times in index order: +P, +P (doubling), -P (cancellation)
+    [] e.pat = "collide" -> IF (i \div ToInt(e.A)) % 3 < 2 THEN e.B ELSE SubMod(Zero, e.B, r)
     [] OTHER -> Lin(r, e.A, e.B, i)
 
 RecS(r, e, i) ==
@@ -22,6 +24,7 @@ RecS(r, e, i) ==
     [] e.pat = "onehot" -> Rem(Shl(One, i % (BitLen(r) - 1)), r)
     [] e.pat = "few" -> MulMod(NatI((i % 3) + 1), e.D, r)
     [] e.pat = "small" -> NatI(i % 7)
+    [] e.pat = "collide" -> MulMod(NatI((i % ToInt(e.A)) + 1), e.D, r)
     [] OTHER -> Lin(r, e.C, e.D, i)
 
 Idx(n) == [j \in 1..n |-> j - 1]
